@@ -73,7 +73,8 @@ impl BytesSerializable for DeleteConsumerOffset {
     }
 
     fn from_bytes(bytes: Bytes) -> Result<DeleteConsumerOffset, IggyError> {
-        if bytes.len() < 15 {
+        // Consumer kind + three identifiers of at least 3 bytes + partition ID.
+        if bytes.len() < 14 {
             return Err(IggyError::InvalidCommand);
         }
 
